@@ -1,5 +1,5 @@
 """C07 — DNS questions and answers are routed by the first matching DNS rule."""
-import collections, json, os, subprocess
+import collections, json, os, re, subprocess
 from verifkit import read_lines, VERIF, LEAN, REPO, sh, go_env
 
 REQUIRED = ["DaeVerif.C07.Props." + n for n in (
@@ -50,21 +50,29 @@ def run(ctx):
         "the response cache is modelled as a key → records map of fresh entries (expiry, stale serving, LRU are C08's subject); upstream transports are fake forwarders",
         "miekg/dns Pack/Unpack/CanonicalName; names are ASCII without backslash escapes",
     ]
-    # source-structure guard: regenerate the step order of the controller's request path from the Go source
-    # under test (go/ast translator); Props.controller_steps_as_modelled compares it with the model's skeleton
-    gen = os.path.join(LEAN, "DaeVerif", "C07", "Gen", "Skeleton.lean")
+    # source-structure guard: the decisive order facts of the controller's request path are recomputed from the Go
+    # source under test (go/ast translator) and compared with the snapshot the model was written against
+    # (lean/DaeVerif/C07/Gen/Skeleton.lean; Props.controller_steps_as_modelled equates snapshot and model).
+    # Nothing is written into the source tree.
+    def facts_of(txt):
+        return re.findall(r'^\s+"((?:[^"\\]|\\.)*)"', txt, re.M)
     rc, out, _ = sh(["go", "run", "main.go", os.path.join(REPO, "control")],
                     cwd=os.path.join(VERIF, "translators", "c07skel"), env=go_env(), timeout=600)
+    snap = facts_of(open(os.path.join(LEAN, "DaeVerif", "C07", "Gen", "Skeleton.lean")).read())
     if rc != 0 or "namespace DaeVerif.C07.Gen" not in out:
-        ctx.say("TRANSLATOR-FAILED c07skel:", out[-2000:])
+        ctx.say("MODEL-SKELETON-OUT-OF-DATE: c07skel cannot find the controller's request path in the source "
+                "(a method was moved or renamed): re-read lean/DaeVerif/C07/Skeleton.lean against the code. " + out[-600:])
         return 2
-    out = out[out.index("/-! GENERATED"):]
-    if not os.path.exists(gen) or open(gen).read() != out:
-        os.makedirs(os.path.dirname(gen), exist_ok=True)
-        open(gen, "w").write(out)
+    cur = facts_of(out[out.index("/-! SNAPSHOT"):])
+    skeleton_diff = [f for f in cur if f not in snap] + [f"(missing) {f}" for f in snap if f not in cur]
     ctx.prove(["DaeVerif.C07.Props", "DaeVerif.C07.Compose"], ["DaeVerif.C07.Props"], ["DaeVerif/C07/*.lean"],
               extra_targets=["c07drv"])
     ctx.required_theorems(REQUIRED)
+    if skeleton_diff:
+        # a broken correspondence between the model's controller skeleton and the source: reported as a
+        # violation without failing input (the behavioural tie below may still find one)
+        ctx.proof_failures.append("the decisive step order of the DNS controller differs from the one the model skeleton "
+                                  "was written against: " + " | ".join(skeleton_diff)[:1500])
 
     state = {"evaluations": 0}
     distinct = set()
